@@ -6,6 +6,7 @@ full-period round trip and Parseval under both normalisation flags; out= buffer.
 """
 import numpy as np
 
+from vp import gen
 from vp.gen import layout as gen_layout
 
 from vp import probe, refmodels as rm
@@ -18,7 +19,7 @@ RULE = ('seeded generator over input shape (1x1..24x24 quick / ..64 thorough; ev
 ASSUMPTIONS = ['numpy longdouble (80-bit) arithmetic is the reference for the defining sum',
                'phase arguments bounded (|2 pi alpha x u| < 1e4 rad)']
 PLAN = {'quick': {'gen': 8}, 'thorough': {'gen': 16, 'tests': 1, 'docs': 1}}
-REQUIRED_BUCKETS = ['in:1x1', 'in:even', 'in:odd', 'in:nonsquare', 'alpha:iso', 'alpha:aniso',
+REQUIRED_BUCKETS = ['out:view', 'alpha:narrow-float', 'alpha:extreme', 'in:1x1', 'in:even', 'in:odd', 'in:nonsquare', 'alpha:iso', 'alpha:aniso',
                     'shift0', 'shift+offset', 'unitary:True', 'unitary:False', 'out:given', 'out:none',
                     'inverse:unitary', 'inverse:nonunitary', 'inverse:general', 'cache:evict', 'sweep', 'out:aliased-tall',
                     'refused-then-reused']
@@ -243,6 +244,12 @@ def workload(ctx, lentil):
         ac = ar if iso else _alpha(N)
         if not iso and ac == ar:
             ac = ar * 0.77
+        narrow = None
+        if rng.random() < 0.12:
+            # the sampling interval held in a narrower float type (e.g. derived from single-precision data): the same number
+            narrow = [np.float32, np.float16][int(rng.integers(0, 2))]
+            ar, ac = float(narrow(ar)), float(narrow(ac))
+            ctx.bucket('alpha:narrow-float')
         zero_shift = rng.random() < 0.3
         if zero_shift:
             shift, offset = (0, 0), (0, 0)
@@ -266,6 +273,8 @@ def workload(ctx, lentil):
                f'unitary:{bool(unitary)}', 'out:given' if use_out else 'out:none']
         ctx.case(desc, bks, nontrivial=f.size > 1)
         alpha_arg = ar if (iso and form == 0) else ([ar, ac] if form == 1 else np.array([ar, ac]))
+        if narrow is not None:
+            alpha_arg = narrow(ar) if (iso and form == 0) else ([narrow(ar), narrow(ac)] if form == 1 else np.array([ar, ac], dtype=narrow))
         shape_arg = (M, N) if not (M == N and form == 0) else M
         if (M, N) == (m, n) and form == 2:
             shape_arg = None
@@ -279,9 +288,24 @@ def workload(ctx, lentil):
             ctx.check(np.array_equal(pos, fresh), 'out=same', 'dft2|positional', 'dft2 called positionally differs from the keyword call', desc)
         if use_out:
             buf = (rng.normal(size=(M, N)) + 1j * rng.normal(size=(M, N))).astype(complex)
-            res = dft2(f, alpha_arg, out=buf, **kwargs)
+            big = None
+            if i % 3 == 1:
+                # the buffer is a tile of a larger image, or a Fortran-ordered array: right shape, right dtype
+                if i % 2:
+                    big = np.full((M + 5, N + 4), 7 - 3j)
+                    buf = big[2:2 + M, 3:3 + N]
+                else:
+                    buf = np.asfortranarray(buf)
+                ctx.bucket('out:view')
+            try:
+                res = dft2(f, alpha_arg, out=buf, **kwargs)
+            except ValueError:
+                continue                                  # the probe has recorded the refusal
             ctx.check(res is buf and np.array_equal(buf, fresh), 'out=same', 'dft2|out-values',
                       'dft2 with out= differs from a fresh allocation', desc)
+            if big is not None:
+                big[2:2 + M, 3:3 + N] = 7 - 3j
+                ctx.check(bool(np.all(big == 7 - 3j)), 'out=same', 'dft2|out-view-spill', 'dft2 with out= wrote outside the supplied tile', desc)
         # integrity of the shared coordinate cache after the call (invariant at a hook)
         with probe.quiet():
             R, S, U, V = coords_fn(m, n, M, N)
@@ -291,6 +315,25 @@ def workload(ctx, lentil):
                   'cached DFT coordinate vectors differ from arange(n)-floor(n/2)', desc)
     if len(seen_keys) > 32:
         ctx.bucket('cache:evict')
+
+    # sampling intervals whose product leaves the float64 range although the normalisation sqrt|ar*ac| itself does not
+    for i in range(ctx.count(6, 40)):
+        m, n = gen.rshape(rng, 1, 6)
+        f = rng.normal(size=(m, n)) + 1j * rng.normal(size=(m, n))
+        k = i % 3
+        if k == 0:
+            a = float(10 ** -rng.uniform(155, 250))
+            alpha_arg, shp = (a if i % 2 else [a, a * 0.5]), (int(rng.integers(1, 6)), int(rng.integers(1, 6)))
+        elif k == 1:
+            a = float(10 ** rng.uniform(100, 150))
+            alpha_arg, shp = [a, 1.0 / a * float(rng.uniform(0.01, 0.3)) / max(m, n)], (1, int(rng.integers(1, 6)))
+            f = f[:1]
+        else:
+            a = float(10 ** rng.uniform(155, 250))
+            alpha_arg, shp, f = a, (1, 1), f[:1, :1]
+        ctx.case({'extreme-alpha': alpha_arg, 'in': list(f.shape), 'out': list(shp)}, ['alpha:extreme'])
+        with np.errstate(all='ignore'):
+            dft2(f, alpha_arg, shape=shp)                # probe checks against the sum
 
     # inverse transforms away from the full-period case (general alpha, unrelated shapes, shifts): the online oracle
     # decides the unitary ones (same normalisation as the forward transform); non-unitary partial periods are skipped there
@@ -313,6 +356,9 @@ def workload(ctx, lentil):
             ctx.check(np.array_equal(r_pos, r_kw), 'out=same', 'idft2|positional', 'idft2 called positionally differs from the keyword call',
                       {'unitary': unitary})
             buf = np.full((M, N), 3 + 1j)
+            if i % 3 == 2:
+                buf = np.full((M + 2, N + 3), 3 + 1j)[1:1 + M, 2:2 + N] if i % 2 else np.asfortranarray(buf)
+                ctx.bucket('out:view')
             r_buf = idft2(F, aarg, (M, N), shift, unitary, buf)
             ctx.check(r_buf is buf and np.array_equal(buf, r_kw), 'out=same', 'idft2|positional-out',
                       'idft2 with a positional out buffer does not fill it with the values a fresh allocation returns', {'unitary': unitary})
